@@ -69,6 +69,7 @@ class AsyncTLSStreamTransport(AsyncStreamTransport):
     _data_deque: deque[memoryview] = dataclasses.field(init=False, default_factory=deque)
     __incoming_reader: _IncomingDataReader = dataclasses.field(init=False)
     __transport_send_lock: ILock = dataclasses.field(init=False)
+    __transport_send_lock_waiters: int = dataclasses.field(init=False, default=0)
     __transport_recv_lock: ILock = dataclasses.field(init=False)
     __closing: bool = dataclasses.field(init=False, default=False)
     __closed: IEvent = dataclasses.field(init=False)
@@ -282,9 +283,11 @@ class AsyncTLSStreamTransport(AsyncStreamTransport):
             except _ssl_module.SSLWantReadError:
                 try:
                     # Flush any pending writes first
-                    async with self.__transport_send_lock:
-                        if self._write_bio.pending:
-                            await self._transport.send_all(self._write_bio.read())
+                    # NOTE: Not if a task is already waiting for the send lock: whoever gets that lock flushes everything
+                    #       which is pending, so waiting behind it is redundant. And the lock's owner may be parked
+                    #       in send_all() until the peer reads, while the peer waits for us to read (deadlock).
+                    if self._write_bio.pending and not self.__transport_send_lock_waiters:
+                        await self.__flush_pending_writes()
 
                     async with self.__transport_recv_lock:
                         await self.__incoming_reader.readinto(self._read_bio)
@@ -293,8 +296,7 @@ class AsyncTLSStreamTransport(AsyncStreamTransport):
                     self._write_bio.write_eof()
                     raise
             except _ssl_module.SSLWantWriteError:
-                async with self.__transport_send_lock:
-                    await self._transport.send_all(self._write_bio.read())
+                await self.__flush_pending_writes(even_if_empty=True)
             except _ssl_module.SSLError:
                 self._read_bio.write_eof()
                 self._write_bio.write_eof()
@@ -305,11 +307,21 @@ class AsyncTLSStreamTransport(AsyncStreamTransport):
                 #       while waiting for the send lock or for send_all() would lose it.
                 #       What is pending (if any) is flushed by the next operation.
                 if ssl_object_method != self._ssl_object.read:
-                    async with self.__transport_send_lock:
-                        if self._write_bio.pending:
-                            await self._transport.send_all(self._write_bio.read())
+                    await self.__flush_pending_writes()
 
                 return result
+
+    async def __flush_pending_writes(self, *, even_if_empty: bool = False) -> None:
+        self.__transport_send_lock_waiters += 1
+        try:
+            await self.__transport_send_lock.acquire()
+        finally:
+            self.__transport_send_lock_waiters -= 1
+        try:
+            if even_if_empty or self._write_bio.pending:
+                await self._transport.send_all(self._write_bio.read())
+        finally:
+            self.__transport_send_lock.release()
 
     @property
     @_utils.inherit_doc(AsyncStreamTransport)
